@@ -1145,6 +1145,8 @@ func checkC11(r *Run) {
 	convertKindRule(r, "R8")
 	r.Rule("R9", "the member tail of an index path is never dropped: an evaluator function that takes the index node yields a value only where it found the node's callee nil, or from a function it handed the node to", 1)
 	indexTailRule(r, "R9")
+	r.Rule("R12", "the tail of a path is parsed as a whole expression: what is handed to the wiring function behind `].` / `).` is the result of the Pratt entry at the fallback level", 1)
+	pathTailLevelRule(r, "R12")
 	r.Rule("R11", "a member is read off the value of its own receiver: where FieldByName is given the Value of an identifier node, the value it is applied to comes from an evaluation of that node's Callee", 1)
 	memberReceiverRule(r, "R11")
 	r.Rule("R10", "the index of a path is read where the path is evaluated: the scope in which the rest of an indexed path (a[i].b[j]) is evaluated is built at that access - a fresh child of the scope current on entry, put back by a defer - never one kept from an earlier access (its copy of i and j would be stale)", 1)
